@@ -1,5 +1,7 @@
-(* Driver of the extracted planarity oracle (C11): reads the case lines of harness/cmd/c11 on
-   stdin and prints, for every graph of the chain of a case, `n.m.hash=<t|f|?>` where the
+(* Driver of the extracted planarity oracle and of the extracted model of IsPlanar (C11): reads
+   the case lines of harness/cmd/c11 on stdin and prints, for every graph of the chain of a
+   case, `n.m.hash=<t|f|?>:<t|f|panic|fuel|->`.  The second value is the result of the executable
+   model of graph.IsPlanar (coq/Planar/DmpModel.v; `-` above model_max vertices).  The first
    value is the specification's answer when it is determined by a proved function:
      - graphs with at most `lim` vertices: the extracted exhaustive search [planar_b];
      - a base graph with a certificate: [check_model_b] (a valid K5 / K3,3 model => non-planar);
